@@ -169,6 +169,21 @@ pub fn zero(s: &Sch) -> Val {
     }
 }
 
+/// A non-zero default value of a schema (true, all-ones).
+pub fn ones(s: &Sch) -> Val {
+    match s {
+        Sch::U8 => Val::U8(0xff),
+        Sch::Bool => Val::Bool(1),
+        Sch::U32 => Val::U32(u32::MAX),
+        Sch::U128 => Val::U128(u128::MAX),
+        Sch::Bytes(n) => Val::Bytes(vec![0xff; *n]),
+        Sch::Opt(i) => Val::Opt(Some(Box::new(ones(i)))),
+        Sch::Tuple(i) => Val::Tuple(i.iter().map(ones).collect()),
+        Sch::Vec(_) => Val::Vec(vec![]),
+        Sch::Arr(n, i) => Val::Arr((0..*n).map(|_| ones(i)).collect()),
+    }
+}
+
 // ------------------------------------------------------------------------------------------------
 // tree mutation
 // ------------------------------------------------------------------------------------------------
@@ -205,6 +220,10 @@ pub enum MutOp {
     SetU8(u8),
     /// swap two elements of a vector
     SwapElems(usize, usize),
+    /// keep only the first n elements of a vector
+    KeepFirst(usize),
+    /// None -> Some(non-zero default: true / all ones)
+    NoneToSomeOne,
     /// XOR a leaf u128 with the probed global key of a party (dynamic, read in the same poll)
     XorDeltaOf(usize),
 }
@@ -299,6 +318,10 @@ pub fn apply(s: &Sch, x: &mut Val, m: &TreeMut, rng: &mut impl Rng) -> bool {
         (MutOp::Empty, Val::Vec(v)) if !v.is_empty() => { v.clear(); true }
         (MutOp::Halve, Val::Vec(v)) if v.len() >= 2 => { let h = v.len() / 2; v.truncate(h); true }
         (MutOp::SwapFirstTwo, Val::Vec(v)) if v.len() >= 2 && v[0] != v[1] => { v.swap(0, 1); true }
+        (MutOp::KeepFirst(k), Val::Vec(v)) if v.len() > *k => { v.truncate(*k); true }
+        (MutOp::NoneToSomeOne, o @ Val::Opt(None)) => {
+            if let Some(Sch::Opt(inner)) = sub { *o = Val::Opt(Some(Box::new(ones(&inner)))); true } else { false }
+        }
         (MutOp::SwapElems(a, b), Val::Vec(v)) if *a < v.len() && *b < v.len() && v[*a] != v[*b] => { v.swap(*a, *b); true }
         _ => false,
     }
@@ -346,7 +369,10 @@ fn walk(x: &Val, path: &mut Vec<usize>, d: Density, out: &mut Vec<TreeMut>) {
             push(out, path, MutOp::FlipBit);
             push(out, path, MutOp::BoolTwo);
         }
-        Val::Opt(None) => push(out, path, MutOp::NoneToSome),
+        Val::Opt(None) => {
+            push(out, path, MutOp::NoneToSome);
+            push(out, path, MutOp::NoneToSomeOne);
+        }
         Val::Opt(Some(i)) => {
             push(out, path, MutOp::SomeToNone);
             path.push(0);
@@ -366,6 +392,13 @@ fn walk(x: &Val, path: &mut Vec<usize>, d: Density, out: &mut Vec<TreeMut>) {
             }
             // a vec(u8) is treated as a byte string: mutate a few bytes only
             let is_bytes = matches!(items.first(), Some(Val::U8(_)));
+            if is_bytes {
+                for k in [1usize, 15, 16] {
+                    if items.len() > k {
+                        push(out, path, MutOp::KeepFirst(k));
+                    }
+                }
+            }
             let pos = if is_bytes { positions(items.len(), Density::Sampled) } else { positions(items.len(), d) };
             for i in pos {
                 path.push(i);
